@@ -8,7 +8,12 @@ use std::io::{Seek, SeekFrom, Write};
 use std::os::unix::fs::FileExt;
 use std::os::unix::io::AsRawFd;
 use std::path::{Path, PathBuf};
+#[cfg(not(rescrv_blue_verif_shuttle))]
 use std::sync::{Arc, Condvar, Mutex};
+#[cfg(rescrv_blue_verif_shuttle)]
+use std::sync::Arc;
+#[cfg(rescrv_blue_verif_shuttle)]
+use shuttle::sync::{Condvar, Mutex};
 
 use biometrics::Counter;
 
